@@ -377,6 +377,15 @@ def _check_masked_plot(ck: Checker, f, flag: str, mask: str, what: str, rows, x:
         raise AnalysisError(f"{f.qualname}: loop over the members not found")
     member = loops[-1]
     H = member.target.id
+    # every member is visited: nothing inside the member loop leaves it (or the function) early
+    leaving = [x for x in ast.walk(member) if isinstance(x, (ast.Return, ast.Break)) or (isinstance(x, ast.Raise))]
+    inner_loops = [x for x in ast.walk(member) if isinstance(x, (ast.For, ast.While)) and x is not member]
+    leaving = [x for x in leaving if isinstance(x, ast.Return) or not any(any(y is x for y in ast.walk(il)) for il in inner_loops)]
+    if leaving:
+        ck.violation("C20.R3", f.qualname, f"{what}: member loop", f"the loop over the members (azimuths) is left by `{type(leaving[0]).__name__.lower()}` at line "
+                     f"{leaving[0].lineno}: the members after that one are not drawn", loc=f.loc(leaving[0]))
+    else:
+        ck.ok("C20.R3", f.qualname, f"{what}: every member is visited", nontrivial=False)
     if not reaching(f).only_param(flag, pst):
         ck.violation("C20.R3", f.qualname, key, f"`{flag}` is rebound before the selection", loc=f.loc(pst))
         return
